@@ -182,7 +182,7 @@ theorem foldl_get (base : Cid → Resources) (us : List Update) :
         simp [hc, hc']
 
 theorem appliedFrom_mem (base : Cid → Resources) (us : List Update) :
-    ∀ (s : Sim), ∀ v ∈ appliedFrom base s us, v ∈ us ∧ ∃ r, v.resources = some r := by
+    ∀ (s : Sim), ∀ v ∈ appliedFrom base s us, v ∈ us ∧ (setsUpd v).Nodup ∧ ∃ r, v.resources = some r := by
   induction us with
   | nil => intro s v hv; cases hv
   | cons u rest ih =>
@@ -194,7 +194,7 @@ theorem appliedFrom_mem (base : Cid → Resources) (us : List Update) :
         simp only [List.mem_singleton] at hv
         subst hv
         obtain ⟨r, hr, _⟩ := applies_some s v happ
-        exact ⟨List.mem_cons_self, r, hr⟩
+        exact ⟨List.mem_cons_self, applies_nodup s v happ, r, hr⟩
       · cases hv
     · obtain ⟨h1, h2⟩ := ih _ v hv
       exact ⟨List.mem_cons_of_mem _ h1, h2⟩
